@@ -3,15 +3,20 @@ THEOREMS = [
     "C02_minimum_consensus_power_is_10TiB", "C02_active_power_exact", "C02_delta_is_difference",
     "C02_credited_is_sum_of_deltas", "C02_unproven_contributes_nothing",
     "C02_activation_credits_unproven_power", "C02_skipped_or_faulty_contributes_nothing",
-    "C02_missed_post_removes_power_at_deadline_end", "C02_power_totals_exact",
+    "C02_missed_post_removes_power_at_deadline_end", "C02_deadline_delta_is_difference",
+    "C02_deadline_credited_is_sum_of_deltas", "C02_power_totals_exact",
     "C02_current_total_power_rule", "C02_claim_is_sum_of_deltas", "C02_miner_claim_tracks_partial",
 ]
-MODEL_TARGETS = ["Model/Partition", "Model/PartitionInv", "Model/Power"]
+MODEL_TARGETS = ["Model/Partition", "Model/PartitionInv", "Model/Deadline", "Model/DeadlineInv", "Model/DeadlineC02", "Model/Power"]
 HARNESS = [
     {"bin": "power", "tag": "power",
      "quick": {"cases": 150, "len": 40, "shards": 4},
      "thorough": {"cases": 2000, "len": 60, "shards": 8},
      "search": {"cases": 600, "len": 50}},
+    {"bin": "deadline", "tag": "deadline",
+     "quick": {"cases": 150, "len": 30, "shards": 4},
+     "thorough": {"cases": 3000, "len": 40, "shards": 16},
+     "search": {"cases": 800, "len": 35}},
     {"bin": "partition", "tag": "partition",
      "quick": {"cases": 400, "len": 30, "shards": 4},
      "thorough": {"cases": 8000, "len": 45, "shards": 16},
@@ -19,7 +24,7 @@ HARNESS = [
 ]
 TRUSTED_BASE = TRUSTED_BASE_COMMON + [
     "C02 model coq/Model/Power.v: hand-written transcription of the claim bookkeeping of actors/power/src/{state.rs,lib.rs} (create_miner's claim, add_to_claim with the consensus-minimum threshold, delete_claim on the cron-failure path, current_total_power); policy.minimum_consensus_power and CONSENSUS_MINER_MIN_MINERS are parameters of the initial state read from the running code by the harness (all valid PoSt proof types map to policy.minimum_consensus_power)",
-    "C02 partition side: coq/Model/Partition.v (see C04) with step_delta = the delta each partition operation reports to its caller; the composition through deadline_state.rs and the handlers of actors/miner/src/lib.rs up to the UpdateClaimedPower send is NOT proved (C02_miner_claim_tracks_partial states it for one partition driven by its callers)",
+    "C02 partition side: coq/Model/Partition.v (see C04) with step_delta = the delta each partition operation reports to its caller; coq/Model/Deadline.v + DeadlineC02.v give the same for every deadline operation (dstep_delta); the composition over the 48 deadlines and the handlers of actors/miner/src/lib.rs up to the UpdateClaimedPower send is NOT proved (C02_miner_claim_tracks_partial), it is covered by the handler-level monitor harness",
     "C02 harness/src/bin/power.rs: real power, init, miner, reward and cron actors on the harness VM; UpdateClaimedPower injected with miner actors (and non-miners) as callers, claims deleted through the real failing-cron-callback path; monitors = totals recomputed from the claims HAMT under the consensus-minimum rule, rejected calls change nothing",
 ]
 ASSUMPTIONS = [
